@@ -13,10 +13,11 @@ worktree (nothing from `/verif`), each confirmed by me in a scratch worktree (`s
 repository's unedited suite still passes — 754/754 —, the agent's demonstration fails with the change and passes without it), then
 run against the property's registered quick check on a scratch worktree (`scripts/mutant_scratch.sh`; `/repo` itself is never
 modified). Kept under `seeded/<id>/` (patch.diff, demo.sh, meta.json, confirm.log, check_result.txt). Rounds: A/B (all 20
-properties), C/D (13 properties), E/F (session 3). "first exposure" is the verdict of the quick check as it was when the change was
-first confirmed ({first_missed} misses); every miss led to a strengthening of the generator or oracle (last column) — never to a
+properties), C/D (13 properties), E/F (all 20, session 3), G/H (10 properties, session 3). "first exposure" is the verdict of the quick check as it was when the change was
+first confirmed ({first_missed} changes were missed by at least one of the checks run against them); every miss led to a strengthening of the generator or oracle (last column) — never to a
 special case for the change — and the table's "now" column is the verdict of the committed checks ({now_missed} not caught by any
-listed check).
+listed check). Where the column names a second property, the change falls into that property's domain as well (e.g. a literal-rounding
+change written for C02 is C06's subject) and that property's check is the one that is expected to catch it.
 
 """
 doc = open(os.path.join(ROOT, "DESIGN.md"), encoding="utf-8").read()
